@@ -162,23 +162,35 @@ func runSelftests(prop, repo, verifDir string) (map[string]interface{}, []Varian
 	}
 	exe, _ := os.Executable()
 	results := make([]VariantResult, len(vs))
-	sem := make(chan struct{}, 6)
+	// worker subprocesses, each analysing a slice of the variants sequentially (the packages
+	// imported from export data are loaded once per worker and shared by its variants)
+	k := 6
+	if len(vs) < k {
+		k = len(vs)
+	}
 	var wg sync.WaitGroup
-	for i := range vs {
+	for w := 0; w < k; w++ {
+		var idx []int
+		var names []string
+		for i := w; i < len(vs); i += k {
+			idx = append(idx, i)
+			names = append(names, vs[i].Name)
+		}
 		wg.Add(1)
-		go func(i int) {
+		go func(idx []int, names []string) {
 			defer wg.Done()
-			sem <- struct{}{}
-			defer func() { <-sem }()
-			cmd := exec.Command(exe, "variant", "-property", prop, "-name", vs[i].Name, "-repo", repo)
+			cmd := exec.Command(exe, "variant", "-property", prop, "-name", strings.Join(names, ","), "-repo", repo)
 			cmd.Env = append(os.Environ(), "VERIF_DIR="+verifDir)
 			out, err := cmd.Output()
-			var r VariantResult
-			if jerr := json.Unmarshal(out, &r); jerr != nil {
-				r = VariantResult{Name: vs[i].Name, Outcome: "error", Detail: fmt.Sprintf("%v %v %s", err, jerr, firstLine(string(out)))}
+			lines := strings.Split(strings.TrimSpace(string(out)), "\n")
+			for j, i := range idx {
+				var r VariantResult
+				if j >= len(lines) || json.Unmarshal([]byte(lines[j]), &r) != nil {
+					r = VariantResult{Name: vs[i].Name, Outcome: "error", Detail: fmt.Sprintf("worker failed: %v", err)}
+				}
+				results[i] = r
 			}
-			results[i] = r
-		}(i)
+		}(idx, names)
 	}
 	wg.Wait()
 	tally := map[string]int{}
